@@ -209,11 +209,17 @@ impl<K, V, A: Allocator> CaoHashMap<K, V, A> {
         debug_assert!(h != 0, "Bad handle, 0 values are reserved");
 
         // find the bucket
+        let mut i = self.find_ind(h, &key);
+        // grow before storing a new key, so that a failed allocation leaves the map as it was
+        // (and never full); no grow is triggered if the key overrides an existing value
+        if self.hashes()[i] == 0 && Self::needs_grow(self.count + 1, self.capacity) {
+            self.grow()?;
+            i = self.find_ind(h, &key);
+        }
         let hashes = self.hashes();
         let keys = self.keys.as_ptr();
         let values = self.values.as_ptr();
 
-        let i = self.find_ind(h, &key);
         if hashes[i] != 0 {
             debug_assert_eq!(hashes[i], h);
             // delete the old entry
@@ -229,10 +235,6 @@ impl<K, V, A: Allocator> CaoHashMap<K, V, A> {
         }
         std::ptr::write(keys.add(i), key);
         std::ptr::write(values.add(i), value);
-        // delaying grow so that no grow is triggered if the key overrides an existing value
-        if Self::needs_grow(self.count, self.capacity) {
-            self.grow()?;
-        }
         Ok(())
     }
 
